@@ -1,2 +1,10 @@
 #!/bin/sh
-exit 0
+# Offline setup: build the runner and pre-build the instrumented worker for the current /repo tree
+# (warms the Go build cache so that the first check does not pay the cold build).
+set -e
+cd "$(dirname "$0")"
+export GOFLAGS=-mod=mod GOPROXY=off GOSUMDB=off GOTOOLCHAIN=local CGO_ENABLED=0
+mkdir -p bin evidence replays
+go build -o bin/verif ./cmd/verif
+./bin/verif build >/dev/null
+echo "setup ok"
